@@ -22,6 +22,94 @@ import sys
 
 import vlib
 
+import re
+import time
+
+
+class _Partial(dict):
+    """results of a run in which nothing could be executed: only the properties that own a failing
+    generated program have a verdict; asking for any other one is a tool error (exit 2)"""
+
+    def __getitem__(self, k):
+        if k not in self:
+            raise vlib.ToolError("nothing could run for %s: the generated crate hv_dfir does not build "
+                                 "(the failing generated programs are reported under their own properties)" % k)
+        return dict.__getitem__(self, k)
+
+
+def _cargo_progs(timeout=5400):
+    """cargo build of run_progs with the generated programs; returns (bindir or None, full output)"""
+    ws = vlib.HARNESS
+    vlib.ensure_lock(ws)
+    cmd = ["cargo", "build", "--offline", "--release", "-p", "hv_dfir", "--bin", "run_progs", "--features", "progs"]
+    e = dict(os.environ)
+    e["CARGO_NET_OFFLINE"] = "true"
+    e["CARGO_TERM_COLOR"] = "never"
+    t0 = time.time()
+    try:
+        p = subprocess.run(cmd, cwd=ws, env=e, stdout=subprocess.PIPE, stderr=subprocess.STDOUT, text=True,
+                           errors="replace", timeout=timeout)
+    except subprocess.TimeoutExpired:
+        raise vlib.ToolError("cargo build timeout: hv_dfir")
+    vlib.log("cargo build hv_dfir (progs): %.1fs rc=%s" % (time.time() - t0, p.returncode))
+    return (os.path.join(ws, "target", "release") if p.returncode == 0 else None), p.stdout
+
+
+_ERR_HEAD = re.compile(r"^error(\[E\d+\])?: (.*)$")
+_ERR_LOC = re.compile(r"^\s*--> (\S+?):(\d+):(\d+)")
+
+
+def _map_build_errors(output):
+    """rustc diagnostics -> ({program id: [messages]}, [errors that are NOT inside a generated program])"""
+    src = open(os.path.join(vlib.HARNESS, "hv_dfir", "src", "gen_progs.rs")).read().splitlines()
+    starts = []     # (line number, program id) of every `pub fn pNNN(`
+    for i, ln in enumerate(src, start=1):
+        m = re.match(r"pub fn p(\d+)\(", ln)
+        if m:
+            starts.append((i, int(m.group(1))))
+    run_line = next((i for i, ln in enumerate(src, start=1) if ln.startswith("pub fn run(")), len(src) + 1)
+
+    def owner(line):
+        if line >= run_line:
+            return None
+        best = None
+        for (l0, pid) in starts:
+            if l0 <= line:
+                best = pid
+        return best
+
+    blocks, cur = [], None
+    for ln in output.splitlines():
+        m = _ERR_HEAD.match(ln)
+        if m:
+            cur = {"msg": ln, "loc": None, "text": [ln]}
+            blocks.append(cur)
+            continue
+        if cur is not None:
+            if ln.startswith("warning") or ln.startswith("   Compiling"):
+                cur = None
+                continue
+            cur["text"].append(ln)
+            ml = _ERR_LOC.match(ln)
+            if ml and cur["loc"] is None:
+                cur["loc"] = (ml.group(1), int(ml.group(2)))
+    per_prog, unmapped = {}, []
+    for b in blocks:
+        if b["loc"] is None:
+            # summary lines ("could not compile", "aborting due to") carry no location
+            if re.search(r"could not compile|aborting due to|previous error", b["msg"]):
+                continue
+            unmapped.append(b["msg"])
+            continue
+        path, line = b["loc"]
+        pid = owner(line) if path.replace("\\", "/").endswith("hv_dfir/src/gen_progs.rs") else None
+        if pid is None:
+            unmapped.append("%s (%s:%d)" % (b["msg"], path, line))
+        else:
+            per_prog.setdefault(pid, []).append("\n".join(b["text"][:40]))
+    return per_prog, unmapped
+
+
 PROPS = ["C21", "C22", "C23", "C24", "C25", "C26"]
 ENGINE = "spec/DfirTick: reference interpreter of DFIR tick semantics in TLA+ (TLC evaluates it on recorded runs of generated dfir_syntax! programs; TLC model checks it on tiny programs x all histories); dfir_lang compile verdicts for shape variants"
 _TECH = "TLA+ reference interpreter evaluated by TLC on traces recorded from the real runtime (trace validation) + TLC model checking of the interpreter on tiny programs"
@@ -234,7 +322,45 @@ def run(tier):
         e["VERIF_SEED"] = str(vlib.seed())
         subprocess.run([sys.executable, GEN, "--tier", tier, "--out", d, "--exclude",
                         ",".join(str(x) for x in sorted(rejected))], env=e, check=True, stdout=subprocess.PIPE)
-    bindir = vlib.cargo_build("hv_dfir", bins=["run_progs"], features=["progs"], timeout=5400)
+    bindir, out = _cargo_progs()
+    if bindir is None:
+        # Every program of the corpus compiles on the unchanged tree: generated code of a program that
+        # no longer compiles is a violation of the property that program was written for.  Anything
+        # that is not inside a generated program (harness / runtime API breakage) stays a tool error.
+        per_prog, unmapped = _map_build_errors(out)
+        tail = "\n".join(out.splitlines()[-60:])
+        if unmapped or not per_prog:
+            raise vlib.ToolError("cargo build failed for hv_dfir (not attributable to generated programs: %s):\n%s"
+                                 % (unmapped[:3], tail))
+        owners = set()
+        for pid_, msgs in sorted(per_prog.items()):
+            m = all_metas[pid_]
+            prop = _prop_of(m, "outputs")
+            owners.add(prop)
+            res[prop].violation("dfirtick/%s/generated-code-does-not-compile" % m["name"],
+                                "program %s: the code dfir_syntax! generates no longer compiles (rule generated-code-does-not-compile): %s"
+                                % (m["name"], msgs[0].splitlines()[0]),
+                                {"program": m["name"], "text": m["text"], "rustc": msgs[:4]})
+        # one rebuild without the failing programs, to still get verdicts for everything else
+        excl = sorted(rejected | set(per_prog))
+        e = dict(os.environ)
+        e["VERIF_SEED"] = str(vlib.seed())
+        subprocess.run([sys.executable, GEN, "--tier", tier, "--out", d, "--exclude", ",".join(str(x) for x in excl)],
+                       env=e, check=True, stdout=subprocess.PIPE)
+        bindir, out2 = _cargo_progs()
+        if bindir is None:
+            vlib.log("rebuild without the failing programs failed too: only %s have a verdict" % sorted(owners))
+            part = _Partial()
+            r_mc0 = vlib.tlc(SD, "DfirTickMC", cfg=_mc_cfg(False), workers=4, timeout=1200, xss="64m", coverage=False)
+            for prop in owners:
+                res[prop].add_tlc(r_mc0, "DfirTickMC exhaustive (tiny programs x all histories)")
+                rr = res[prop]
+                rr.evaluations = len(per_prog)
+                rr.distinct_nontrivial = len(per_prog)
+                rr.rule = "nothing could run: cases = generated programs whose code no longer compiles"
+                rr.samples = [{"program": all_metas[k]["name"], "rustc": v[0].splitlines()[:6]} for k, v in list(per_prog.items())[:3]]
+                part[prop] = rr
+            return part
     progs = json.load(open(progs_path))
     metas = {p["id"]: p for p in progs}
 
